@@ -98,8 +98,8 @@ PShared(k)  == IF Has(k.ann, "shared") /\ k.ann.shared \in {"true", "false"} THE
 
 \* -- C05 --
 C05State ==
-    {<<"Inv_RuntimeEqualsCache", w>> : w \in Bad_RuntimeEqualsCache(rt', rtlive', ctrs')}
-    \cup {<<"Inv_NothingPending", c>> : c \in Bad_NothingPending(pend', rtlive', ctrs')}
+    {<<"Inv_RuntimeEqualsCache", w>> : w \in {w \in Bad_RuntimeEqualsCache(rt', rtlive', ctrs') : w[1] \notin evpend'}}
+    \cup {<<"Inv_NothingPending", c>> : c \in Bad_NothingPending(pend', rtlive', ctrs') \ evpend'}
 C05Step ==
     LET tg == UpdTargets(E.upd) \cup AllPushed
         liveAfter == rtlive' \cup (IF E.ev = "Update" THEN {E.c} ELSE {})
@@ -187,15 +187,34 @@ C09State ==
 C12Step ==
     LET all == E.upd \o (IF E.pushed = <<>> THEN <<>> ELSE ApplyConcat(E.pushed))
         cpuOut(c) == c \in DOMAIN ctrs' /\ (ctrs'[c].pcpu \/ ~world'.pincpu)
-        memOut(c) == c \in DOMAIN ctrs' /\ (ctrs'[c].pmem \/ ~world'.pinmemory \/ (~IsTA /\ ~BalloonPinsMemory(pol', c)))
+        memOut(c) == c \in DOMAIN ctrs' /\ (ctrs'[c].pmem \/ ~world'.pinmemory \/ (~IsTA /\ ~BalloonPinsMemory(pol', c))
+                                            \/ (~IsTA /\ pol' # <<>> /\ \E b \in BalloonsOf(pol', c) : b.def \in world'.typenopin))
         told == [i \in DOMAIN all |-> all[i]]
         adjc == IF E.ev = "Create" /\ Ok THEN <<[c |-> E.c, r |-> E.adj]>> ELSE <<>>
         every == adjc \o all
-    IN {V("Act_PreserveCpuNeverTold", "cpuset-told-to-cpu-opted-out-container", every[i].c) :
+        \* F-C12-3: CPU pinning was switched off by a configuration update AFTER the container had been pinned, and an
+        \* UpdateContainer with unchanged resources re-sends the cached (unchanged) cpuset (nri.go short-circuit path)
+        retold(i) == /\ E.ev = "Update" /\ ~world'.pincpu /\ ~ctrs'[every[i].c].pcpu /\ every[i].c \in DOMAIN rt
+                     /\ Has(rt[every[i].c], "cpus") /\ rt[every[i].c].cpus = SetOf(every[i].r.cpus)
+        \* F-C13-3 seen under C12: a configuration that would switch CPU pinning on is rejected while being applied
+        \* (a re-allocation fails); the cpusets already decided under it are pushed although pinning stays off
+        \* the memory nodes the container has: what it was last told, else what it was created with
+        curMems(c) == IF c \in DOMAIN rt /\ Has(rt[c], "mems") THEN rt[c].mems ELSE Get(mems0', c, {})
+        rejectedOn(i) == \/ /\ E.ev = "Reconfigure" /\ E.err /\ ~world'.pincpu /\ ~ctrs'[every[i].c].pcpu
+                            /\ Has(E, "config") /\ Get(E.config, "pinCPU", TRUE)
+                         \* ... or left pending by it and delivered by this request
+                         \/ /\ every[i].c \in residue /\ ~world'.pincpu /\ ~ctrs'[every[i].c].pcpu
+    IN {V("Act_PreserveCpuNeverTold",
+          IF retold(i) THEN "unchanged-cpuset-retold-by-identical-update-after-cpu-pinning-switched-off"
+          ELSE IF rejectedOn(i) THEN "cpuset-pushed-by-configuration-rejected-while-switching-cpu-pinning-on"
+          ELSE "cpuset-told-to-cpu-opted-out-container", every[i].c) :
             i \in {i \in DOMAIN every : cpuOut(every[i].c) /\ Has(every[i].r, "cpus")}}
-       \cup {V("Act_PreserveMemNeverChanged", "mems-told-to-memory-opted-out-container", every[i].c) :
+       \cup {V("Act_PreserveMemNeverChanged",
+                  \* F-C12-2: balloons pinCpuMem writes the allocator's zone to a memory.preserve container
+                  IF ~IsTA /\ ctrs'[every[i].c].pmem THEN "balloons-writes-allocator-zone-to-memory-preserve-container"
+                  ELSE "mems-told-to-memory-opted-out-container", every[i].c) :
             i \in {i \in DOMAIN every : memOut(every[i].c) /\ Has(every[i].r, "mems")
-                                          /\ SetOf(every[i].r.mems) # Get(mems0', every[i].c, {})}}
+                                          /\ SetOf(every[i].r.mems) # curMems(every[i].c)}}
 
 \* -- C11: after Synchronize exactly the containers the runtime reports created/running hold allocations, the rest is purged --
 C11Step ==
@@ -297,13 +316,16 @@ NewViols == {V(pw[1], SigOf(pw), pw[2]) : pw \in StateViols \ broken}
 -----------------------------------------------------------------------------
 (* Trace actions *)
 
+\* balloon types for which the CONFIGURATION switches memory pinning off (the policy's own view of its types, logged
+\* in the snapshot, is what is being checked, not the reference)
+TypeNoPin(cfg) == {t.name : t \in {t \in SetOf(Get(cfg, "balloonTypes", <<>>)) : Has(t, "pinMemory") /\ ~t.pinMemory}}
 WorldOf(e) ==
     LET cfg == e.world.config
     IN [policy |-> e.world.policy,
         pincpu |-> Get(cfg, "pinCPU", TRUE), pinmemory |-> Get(cfg, "pinMemory", TRUE),
-        prefershared |-> Get(cfg, "preferSharedCPUs", FALSE)]
+        prefershared |-> Get(cfg, "preferSharedCPUs", FALSE), typenopin |-> TypeNoPin(cfg)]
 CfgWorld(w, cfg) == [w EXCEPT !.pincpu = Get(cfg, "pinCPU", TRUE), !.pinmemory = Get(cfg, "pinMemory", TRUE),
-                              !.prefershared = Get(cfg, "preferSharedCPUs", FALSE)]
+                              !.prefershared = Get(cfg, "preferSharedCPUs", FALSE), !.typenopin = TypeNoPin(cfg)]
 
 LayoutOf(nodes) ==
     LET ns == SetOf(nodes) IN
@@ -315,12 +337,12 @@ LayoutOf(nodes) ==
 TrReset ==
     /\ E.ev = "reset"
     /\ IF Has(E, "booterr")
-       THEN /\ world' = [policy |-> "none", pincpu |-> TRUE, pinmemory |-> TRUE, prefershared |-> FALSE]
+       THEN /\ world' = [policy |-> "none", pincpu |-> TRUE, pinmemory |-> TRUE, prefershared |-> FALSE, typenopin |-> {}]
             /\ pol' = <<>> /\ mem' = [zone |-> <<>>, size |-> <<>>] /\ lay' = [nodes |-> {}, type |-> <<>>, cap |-> <<>>, normal |-> {}]
             /\ pristine' = <<>> /\ pristine0' = <<>>
        ELSE /\ world' = WorldOf(E) /\ pol' = E.st.pol /\ mem' = E.st.mem /\ lay' = LayoutOf(E.memnodes) /\ pristine' = E.st.pol
             /\ pristine0' = E.st.pol
-    /\ pods' = {} /\ ctrs' = <<>> /\ req' = <<>> /\ pend' = {} /\ rt' = <<>> /\ rtlive' = {} /\ residue' = {}
+    /\ pods' = {} /\ ctrs' = <<>> /\ req' = <<>> /\ pend' = {} /\ rt' = <<>> /\ rtlive' = {} /\ residue' = {} /\ evpend' = {}
     /\ reply' = Reply("reset", None, FALSE, <<>>, <<>>, <<>>)
     /\ stopped' = {} /\ broken' = {} /\ mems0' = <<>> /\ excused' = {} /\ topo' = SetOf(Get(E, "topo", <<>>))
     /\ l' = l + 1 /\ UNCHANGED <<viols, done>>
@@ -329,7 +351,11 @@ TrReset ==
 TrStep ==
     /\ E.ev # "reset" /\ ~Has(E, "hang") /\ Has(E, "st")
     /\ ctrs' = CtrsOf(E.st) /\ pods' = SetOf(E.st.pods) /\ pend' = SetOf(E.st.pend)
-    /\ req' = [c \in DOMAIN ctrs' |-> NoReq] /\ residue' = {}
+    /\ req' = [c \in DOMAIN ctrs' |-> NoReq]
+    \* containers whose change a configuration rejected while being applied left pending
+    /\ residue' = IF E.ev = "Reconfigure" /\ E.err THEN pend' ELSE residue \cap pend'
+    \* a change made by a policy event (cold start completion) is pending by design until a request drains it
+    /\ evpend' = (evpend \cap pend') \cup (IF E.ev = "ColdDone" THEN pend' \ pend ELSE {})
     /\ pol' = E.st.pol /\ mem' = E.st.mem /\ UNCHANGED <<lay, topo>>
     /\ world' = IF E.ev = "Reconfigure" /\ Ok THEN CfgWorld(world, E.config) ELSE world
     \* the configuration booted with has the boot snapshot as its pristine state whenever it is (re-)applied; another
@@ -384,10 +410,10 @@ Finish ==
 
 TraceInit ==
     /\ l = 1 /\ viols = <<>> /\ done = FALSE
-    /\ world = [policy |-> "none", pincpu |-> TRUE, pinmemory |-> TRUE, prefershared |-> FALSE]
+    /\ world = [policy |-> "none", pincpu |-> TRUE, pinmemory |-> TRUE, prefershared |-> FALSE, typenopin |-> {}]
     /\ pol = <<>> /\ mem = [zone |-> <<>>, size |-> <<>>] /\ lay = [nodes |-> {}, type |-> <<>>, cap |-> <<>>, normal |-> {}]
     /\ pristine = <<>> /\ pristine0 = <<>> /\ stopped = {} /\ broken = {} /\ mems0 = <<>> /\ excused = {} /\ topo = {}
-    /\ pods = {} /\ ctrs = <<>> /\ req = <<>> /\ pend = {} /\ rt = <<>> /\ rtlive = {} /\ residue = {}
+    /\ pods = {} /\ ctrs = <<>> /\ req = <<>> /\ pend = {} /\ rt = <<>> /\ rtlive = {} /\ residue = {} /\ evpend = {}
     /\ reply = Reply("Init", None, FALSE, <<>>, <<>>, <<>>)
 
 TraceNext == (l <= N /\ (TrReset \/ TrStep \/ TrNoState)) \/ Finish
